@@ -267,6 +267,9 @@ impl TokenManager {
         let token = TOKEN_CACHE.with(|cache| {
             cache.borrow_mut().get_reader_token()
         });
+        // The per-thread cache is shared by all managers: a token cached on behalf of
+        // another manager must not be handed out as ours (it is released here instead).
+        let token = token.filter(|t| t.issued_by(&self.version_manager));
 
         let token = if let Some(cached_token) = token {
             // Update global cache hit statistics
@@ -301,6 +304,8 @@ impl TokenManager {
         let token = TOKEN_CACHE.with(|cache| {
             cache.borrow_mut().get_writer_token()
         });
+        // See acquire_reader_token: never hand out another manager's cached token.
+        let token = token.filter(|t| t.issued_by(&self.version_manager));
 
         let token = if let Some(cached_token) = token {
             // Update global cache hit statistics
